@@ -970,7 +970,9 @@ func (e *Enc) unop(st *State, ins *ssa.UnOp) {
 		if v.T.Sort != "" && (x.A == nil || x.A.kind != aCell) {
 			v.T = e.def(ins.Name(), v.T)
 			e.assume(st.reach, e.typeAssume(v.T, t, st.hwm))
-			if iface := astNodeInterface(t); iface != "" && (x.A == nil || x.A.kind != aCell) {
+			// (not inside package parser: there the tree is being BUILT - the value stack's `expr` slot also carries
+			// operator nodes - and well-formedness is nothing to assume)
+			if iface := astNodeInterface(t); iface != "" && (x.A == nil || x.A.kind != aCell) && (e.pkg == nil || pkgShort(e.pkg) != "parser") {
 				// AST well-formedness (closed world): a node-typed field holds nil or one of package ast's node types
 				e.noteAssumption("AST well-formedness: Expr/Stmt/Operator fields hold nil or a node type of package ast")
 				sc := e.specCtx(st, e.pre)
